@@ -572,3 +572,48 @@ func H_C03_named() {
 	})
 	verif.Reach("named target")
 }
+
+// H_C03_dyn_duration: numbers that reach a time.Duration target through variable expansion
+// (a reference, a splice that spells a number, a default value). Concrete boundary table: the
+// expansion renders the number as text. A nil error means exactly that many seconds arrived.
+func H_C03_dyn_duration() {
+	nums := []interface{}{int64(90), int64(-90), int64(maxSec), int64(maxSec + 1), int64(-maxSec - 1), int64(10000000000), int64(-10000000000),
+		uint64(1 << 63), uint64(18446744073709551615), 1.5, 1e10, -1e10, 1e300, math.NaN(), math.Inf(1), math.Inf(-1)}
+	n := nums[verif.Choice("number", len(nums))]
+	opts := []ucfg.Option{ucfg.VarExp, ucfg.PathSep(".")}
+	var in map[string]interface{}
+	switch verif.Choice("route", 4) {
+	case 0:
+		in = map[string]interface{}{"r": n, "v": "${r}"}
+	case 1:
+		in = map[string]interface{}{"r": n, "v": "${missing:${r}}"}
+	case 2:
+		in = map[string]interface{}{"r": n, "o": map[string]interface{}{"k": "${r}"}, "v": "${o.k}"}
+	case 3:
+		// a splice that spells the number
+		i, ok := n.(int64)
+		if !ok {
+			return
+		}
+		in = map[string]interface{}{"hi": i / 1000, "lo": "000", "v": "${hi}${lo}"}
+		n = (i / 1000) * 1000
+	}
+	c, err := ucfg.NewFrom(in, opts...)
+	verif.Assume(err == nil)
+	var t box[time.Duration]
+	err = c.Unpack(&t, opts...)
+	verif.Reach("dynamic duration")
+	if err != nil {
+		return
+	}
+	exact := false
+	switch x := n.(type) {
+	case int64:
+		exact = x >= -maxSec && x <= maxSec && t.V == time.Duration(x)*time.Second
+	case uint64:
+		exact = x <= maxSec && t.V == time.Duration(x)*time.Second
+	case float64:
+		exact = x == x && x > -float64(maxSec) && x < float64(maxSec) && t.V == time.Duration(x*float64(time.Second))
+	}
+	verif.Assert(exact, "C03/unpack/number through variable expansion -> duration")
+}
